@@ -88,6 +88,28 @@ def generate(chk):
             chk.broken.append('translator:C13 (%s event containers)' % nme)
         else:
             chk.translit['C13 event containers of ' + nme] = 'regenerated from source: ' + ','.join(v)
+    # a container list the AST reader could not find keeps its last regenerated value (the translator obligation above
+    # records the give-up; the behavioural correspondence still ties the model to the code)
+    try:
+        from harness.common import LEAN as _LEAN
+        _old = (_LEAN / 'NoteSeqVerif/Generated/C13.lean').read_text()
+    except Exception:  # pylint: disable=broad-except
+        _old = ''
+
+    def _last(name):
+        import re as _re
+        import json as _json
+        m = _re.search(r'def %s : List String := (\[[^\]]*\])' % name, _old)
+        try:
+            return _json.loads(m.group(1)) if m else []
+        except Exception:  # pylint: disable=broad-except
+            return []
+    if shift is None:
+        shift = _last('shiftEventFields')
+    if stretch is None:
+        stretch = _last('stretchEventFields')
+    if adjust is None:
+        adjust = _last('adjustEventFields')
     ls = lambda v: lean_list(lean_str(x) for x in (v or []))
     txt = ('/-! GENERATED from /repo on every run by harness/c13.py — do not edit. -/\n'
            'namespace NSV.C13.Gen\n'
